@@ -1036,7 +1036,8 @@ def replay(path):
 def selftest(which, seed):
     vlib.build()
     if which == "determinism":
-        fams = [("c11", 300), ("c12", 300)]
+        fams = [("c11", 200), ("c12", 200), ("c13", 100), ("c16", 100), ("c17", 150), ("c14", 100), ("c15p", 150), ("c15e", 150), ("c20", 150),
+                ("c17b", 150), ("c19b", 100), ("c32", 100), ("c33", 100), ("c10", 100), ("c18", 100), ("c04", 100), ("vec", 150), ("lsh", 200)]
         bad = 0
         total = 0
         for fam, n in fams:
